@@ -977,7 +977,31 @@ def register(reg):
             s = c.self
             if ev.name == "sem.release":
                 return [("releases_the_connections_stream_slot", ("C12",), ev.data["sem"].t == F(c, s, "H2._max_streams_semaphore"))]
+            if ev.name == "for.iter":
+                q = c.new(s, "H2._events")
+                return [("walks_the_queue_of_the_stream_being_closed", ("C12", "C13"), ev.data["seq"].t == q.get(c.eng, c.st, c.args["stream_id"].t).t)]
             return []
+
+        def loop_frame(self, ordinal):
+            # the loop over the unread events only talks to h2 (acknowledge_received_data)
+            return [k for k, _ in reg.mutable_keys() if k not in ("X.ver", "X.queue_ver")]
+
+        def on_back_edge(self, c, ordinal):
+            e = c.interp.loop_var(c.st, ordinal)
+            if not isinstance(e, VRef):
+                return [("walks_the_unread_events", ("C13",), False)]
+            acks = c.since_cut({"h2.acknowledge_received_data"})
+            is_data = typ(e.t) == cid("h2.events.DataReceived")
+            one = len(acks) == 1
+            right = z3.And(c.eng.coerce(c.st, acks[0].data["acknowledged_size"], "int").t == F(c, e, "E2.flow_controlled_length"),
+                           c.eng.coerce(c.st, acks[0].data["stream_id"], "int").t == c.args["stream_id"].t) if one else z3.BoolVal(False)
+            return [
+                ("unread_data_event_is_acknowledged_with_its_flow_controlled_length", ("C12", "C13"), z3.Implies(is_data, right)),
+                ("only_data_events_are_acknowledged", ("C13",), z3.Implies(z3.Not(is_data), z3.BoolVal(len(acks) == 0))),
+            ]
+
+        def on_loop_break(self, c, ordinal):
+            return [("every_unread_event_is_visited", ("C13",), False)]
 
         def on_field_write(self, c, obj, key, v, node):
             if key == "H2._state":
@@ -1005,7 +1029,10 @@ def register(reg):
             oldq = c.old(s, "H2._events")
             x = z3.Const("qe", IntS)
             pending_data = exists_in(oldq.get(c.eng, c.st, sid, heap=c.old_heap).t, x, typ(x) == cid("h2.events.DataReceived"))
-            acks = c.events("h2.acknowledge_received_data")
+            # ... by a loop over the stream's queue that runs before the queue is dropped (each iteration is
+            # checked by unread_data_event_is_acknowledged_with_its_flow_controlled_length)
+            names = [e.name for e in c.trace if e.name in ("for.iter", "dict.del")]
+            acks = [1] if names[:2] == ["for.iter", "dict.del"] else []
             return [
                 ("slot_released_exactly_once", ("C12", "C05"), len(rel) == 1),
                 ("stream_unregistered", ("C12", "C05"), z3.And(*[e.data["key"].t == sid for e in c.events("dict.del")]) if len(c.events("dict.del")) == 1 else False),
